@@ -31,6 +31,20 @@ def gen(seed, tier, index):
         g.s_open(tok=t, rw=True)
     if r.random() < 0.8: g.s_login(user=K.CKU_USER)
     n = r.choice([6, 10, 16, 24, 40]) if tier == "quick" else r.choice([10, 20, 40, 80])
+    if index % 4 == 1 and g.P().login.get(g.toks()[0]) == "U":
+        # stratum: handles of objects whose privacy differs from their source's (copy public -> private and private -> private), then a logout with
+        # sessions still open: the copy's handle has to die like that of any other private object
+        from p11const import A_bool, A_bytes
+        import objs
+        t0 = g.toks()[0]; s0 = [s for s in g.live_sessions(1, t0) if s.rw][0]
+        for _ in range(r.choice([1, 2])):
+            src = g.s_create(kind=r.choice(["aes", "data", "generic"]), token=r.random() < 0.7, private=r.random() < 0.3, sess=s0)
+            if not src or src not in g.w.objs: continue
+            ref = g.new_obj()
+            g.emit({"f": "C_CopyObject", "s": s0.ref, "o": src, "tmpl": [A_bytes(K.CKA_LABEL, objs.label(ref)), A_bool(K.CKA_TOKEN, r.random() < 0.7), A_bool(K.CKA_PRIVATE, True)], "out": ref})
+        if len(g.live_sessions(1, t0)) < 2: g.s_open(tok=t0)
+        g.emit({"f": "C_Logout", "s": s0.ref})
+        if r.random() < 0.7: g.s_login(user=K.CKU_USER, tok=t0)
     for _ in range(n):
         if len(g.P().issued_obj) > 60: break
         g.step(W)
